@@ -175,8 +175,8 @@ func init() {
 	checks["C02"] = func(c *ctx) {
 		o := prog.DefaultOpts()
 		o.FallbackPct, o.PredPct = 5, 15
-		g := genPart(c, "C02", c.pick(70, 800), 0, o, 3, "ok", c.pick(6, 12), false,
-			"a flow with at least 3 functions, one of them with at least 2 inputs, executed without injected failures (each abstract flow is printed in 3 listing/option orders; all must match the same reference)")
+		g := genPart(c, "C02", c.pick(70, 800), 0, o, 3, "ok,conc", c.pick(6, 12), false,
+			"a flow with at least 3 functions, one of them with at least 2 inputs, executed without injected failures (each abstract flow is printed in 3 listing/option orders; all must match the same reference); 'conc': 4, 8 or 32 simultaneous executions of the same directive from as many goroutines, each with its own tokens, each judged on its own")
 		both(c, nil, g)
 	}
 	checks["C03"] = func(c *ctx) {
@@ -206,7 +206,7 @@ func init() {
 	checks["C06"] = func(c *ctx) {
 		s := schedC06(c)
 		o := prog.DefaultOpts()
-		g := genPart(c, "C06", c.pick(40, 500), c.pick(40, 500), o, 1, "ok,fault,panic,cancel", c.pick(3, 8), false,
+		g := genPart(c, "C06", c.pick(40, 500), c.pick(40, 500), o, 1, "ok,fault,panic,cancel,conc", c.pick(3, 8), false,
 			"at least one user function was called; after every execution the process must return to its goroutine baseline")
 		both(c, s, g)
 	}
@@ -254,7 +254,7 @@ func init() {
 		s := schedC12(c)
 		o := prog.DefaultOpts()
 		o.PredPct, o.FallbackPct, o.InstrPct = 35, 30, 50
-		g := genPart(c, "C12", c.pick(50, 400), c.pick(50, 400), o, 1, "ok,pred,fault,cancel", c.pick(4, 12), true,
+		g := genPart(c, "C12", c.pick(50, 400), c.pick(50, 400), o, 1, "ok,pred,fault,cancel,conc", c.pick(4, 12), true,
 			"any execution under the race detector in quiet mode (stubs share nothing; values only flow through generated plumbing)")
 		both(c, s, g)
 	}
